@@ -74,6 +74,8 @@ def gen_case(rng, tier, *, semi=False, metrics=None, force_tie_free=False, allow
         ids = rng.choice(max(50, 2 * (int(Y.max()) + 1)), size=int(Y.max()) + 1, replace=False)
         if rng.random() < 0.5:
             ids = rng.choice(np.arange(257, 100000), size=int(Y.max()) + 1, replace=False)     # beyond CPython's small-int cache
+            if rng.random() < 0.3:
+                ids = ids.astype(np.int64) + 2 ** 40                                            # 64-bit identifiers (hashes, timestamps)
         Y = ids[Y]
     case = {"model": "semi" if semi else "supervised", "metric": metric, "gclass": gc, "pattern": pattern,
             "X": Xl.tolist(), "Y": [int(v) for v in Y], "U": U.tolist(), "Q": Q.tolist(), "pre": None, "prefit": None,
